@@ -326,6 +326,15 @@ pub fn run_synth(a: &Args) {
         let got = impl_build_id(&img); for t in got.split_whitespace() { r.n(u128::from_str_radix(t, 16).unwrap_or(0xfff)); }
         out.case(l.s(), r.s(), true); out.count(if c64 { "synth.class64" } else { "synth.class32" });
         if img.len() < 3000 { let mut l = Line::new("c14"); l.bytes(&img); out.case(l.s(), &got, true); out.count("synth.model_compared"); }
+        // the big-endian twin of the same image: same identifier
+        let be = to_be(&img);
+        if let Ok(d) = std::env::var("C14_DUMP") { let _ = std::fs::write(format!("{d}/img-{}{}{}{}-{notes}-{align}.le", c64 as u8, phdrs as u8, shdrs as u8, split as u8), &img); let _ = std::fs::write(format!("{d}/img-{}{}{}{}-{notes}-{align}.be", c64 as u8, phdrs as u8, shdrs as u8, split as u8), &be); }
+        let mut l = Line::new("const"); l.b(c64).b(phdrs).b(shdrs).b(split).u(notes as u64).z(align).u(2);
+        if has_id { l.u(0).bytes(&id); } else if shdrs { let mut f = vec![0u8; 16]; for (i, x) in text.iter().take(4096).enumerate() { f[i % 16] ^= *x; } l.u(0).bytes(&f); } else { l.u(1); }
+        let mut r = Line::bare(); r.b(c64).b(phdrs).b(shdrs).b(split).u(notes as u64).z(align).u(2);
+        let got = impl_build_id(&be); for t in got.split_whitespace() { r.n(u128::from_str_radix(t, 16).unwrap_or(0xfff)); }
+        out.case(l.s(), r.s(), true); out.count("synth.big_endian");
+        if be.len() < 3000 { let mut l = Line::new("c14"); l.bytes(&be); out.case(l.s(), &got, true); out.count("synth.model_compared"); }
     } } } }
     // the same module read from (this process's own) memory and from its bytes gives the same answers: images whose
     // addresses equal their file offsets, mapped at a fresh address; the dynamic string table address is NOT relocated
@@ -371,7 +380,16 @@ pub fn run_synth(a: &Args) {
         let mem = quiet_catch(move || SoName::read_from_module((&i1[..]).into()).ok().map(|x| x.0.into_bytes()));
         let fil = quiet_catch(move || SoName::read_from_file(&p2).ok().map(|x| x.0.into_bytes()));
         let _ = std::fs::remove_file(&path);
-        for (how, got) in [(0u64, mem), (1, fil)] {
+        let be = to_be(&img);
+        let (i3, i4) = (be.clone(), be.clone());
+        let mem_be = quiet_catch(move || SoName::read_from_module((&i3[..]).into()).ok().map(|x| x.0.into_bytes()));
+        {   // the big-endian twin: same SONAME, same build id
+            let mut l = Line::new("const"); l.z(len).u(3).u(0).bytes(&id); let mut r = Line::bare(); r.z(len).u(3);
+            let got = impl_build_id(&i4); for t in got.split_whitespace() { r.n(u128::from_str_radix(t, 16).unwrap_or(0xfff)); }
+            out.case(l.s(), r.s(), true); out.count("synth.big_endian");
+            if len <= 300 { let mut l = Line::new("c14_soname"); l.bytes(&be); let mut r = Line::bare(); match &mem_be { Ok(Some(v)) => { r.u(0).bytes(v); } Ok(None) => { r.u(1); } Err(_) => { r.u(2); } } out.case(l.s(), r.s(), true); out.count("synth.model_compared"); }
+        }
+        for (how, got) in [(0u64, mem), (1, fil), (2, mem_be)] {
             let mut l = Line::new("const"); l.z(len).u(how).u(1).vec(name.as_bytes());
             let mut r = Line::bare(); r.z(len).u(how);
             match got { Ok(Some(v)) => { r.u(1).vec(&v); } Ok(None) => { r.u(0).u(0); } Err(_) => { r.u(2).u(0); } }
@@ -379,6 +397,36 @@ pub fn run_synth(a: &Args) {
         }
     }
     out.finish(&a.out, "well-formed synthetic ELF64 images (no program headers): an executable PROGBITS section of size {1..12289} at file offsets {0x40..0x2345, aligned and not}, with no note / a 4-aligned / an 8-aligned GNU build-id note; expected id computed by construction (note descriptor, else XOR-fold of the first 4096 text bytes); small images also go through the Coq model");
+}
+
+/// the big-endian twin of a well-formed little-endian image: every multi-byte field of the header, the program headers, the
+/// section headers, the dynamic entries and the note headers stored in the other byte order (strings, identifiers and
+/// section contents are bytes and stay)
+pub fn to_be(le: &[u8]) -> Vec<u8> {
+    let mut b = le.to_vec(); if le.len() < 52 { return b; }
+    b[5] = 2;
+    let c64 = le[4] == 2;
+    let mut done = std::collections::HashSet::new();
+    let mut sw = |b: &mut Vec<u8>, off: usize, w: usize| { if off + w <= b.len() && done.insert(off) { b[off..off + w].reverse(); } };
+    let hdr: &[(usize, usize)] = if c64 { &[(16, 2), (18, 2), (20, 4), (24, 8), (32, 8), (40, 8), (48, 4), (52, 2), (54, 2), (56, 2), (58, 2), (60, 2), (62, 2)] }
+                                 else { &[(16, 2), (18, 2), (20, 4), (24, 4), (28, 4), (32, 4), (36, 4), (40, 2), (42, 2), (44, 2), (46, 2), (48, 2), (50, 2)] };
+    for (o, w) in hdr { sw(&mut b, *o, *w); }
+    let g = |o: usize, w: usize| rd(le, o, w).unwrap_or(0) as usize;
+    let (phoff, phes, phn, shoff, shes, shn) = if c64 { (g(32, 8), g(54, 2), g(56, 2), g(40, 8), g(58, 2), g(60, 2)) } else { (g(28, 4), g(42, 2), g(44, 2), g(32, 4), g(46, 2), g(48, 2)) };
+    let mut notes: Vec<(usize, usize, usize)> = vec![]; let mut dyns: Vec<(usize, usize)> = vec![];
+    if phoff != 0 { for i in 0..phn { let o = phoff + i * phes;
+        let (ty, off, fsz, al) = if c64 { (g(o, 4), g(o + 8, 8), g(o + 32, 8), g(o + 48, 8)) } else { (g(o, 4), g(o + 4, 4), g(o + 16, 4), g(o + 28, 4)) };
+        if ty == 4 { notes.push((off, fsz, al)); } if ty == 2 { dyns.push((off, fsz)); }
+        if c64 { sw(&mut b, o, 4); sw(&mut b, o + 4, 4); for k in 1..7 { sw(&mut b, o + 8 * k, 8); } } else { for k in 0..8 { sw(&mut b, o + 4 * k, 4); } } } }
+    if shoff != 0 { for i in 0..shn { let o = shoff + i * shes;
+        let (ty, off, sz, al) = if c64 { (g(o + 4, 4), g(o + 24, 8), g(o + 32, 8), g(o + 48, 8)) } else { (g(o + 4, 4), g(o + 16, 4), g(o + 20, 4), g(o + 32, 4)) };
+        // (a note section is walked only when no PT_NOTE segment describes the notes: padding between two segments is not a note)
+        if ty == 7 && notes.is_empty() { notes.push((off, sz, al)); } if ty == 6 { dyns.push((off, sz)); }
+        if c64 { for (k, w) in [(0, 4), (4, 4), (8, 8), (16, 8), (24, 8), (32, 8), (40, 4), (44, 4), (48, 8), (56, 8)] { sw(&mut b, o + k, w); } } else { for k in 0..10 { sw(&mut b, o + 4 * k, 4); } } } }
+    for (off, sz, al) in notes { let al = if al == 8 { 8 } else { 4 }; let mut o = off; let up = |x: usize| (x - off + al - 1) / al * al + off;
+        while o + 12 <= off + sz { let (n, d) = (g(o, 4), g(o + 4, 4)); for k in 0..3 { sw(&mut b, o + 4 * k, 4); } o = up(up(o + 12 + n) + d); if n == 0 && d == 0 { break; } } }
+    for (off, sz) in dyns { let w = if c64 { 8 } else { 4 }; let mut o = off; while o + 2 * w <= off + sz { let tag = g(o, w); sw(&mut b, o, w); sw(&mut b, o + w, w); o += 2 * w; if tag == 0 { break; } } }
+    b
 }
 
 pub fn indep_build_id_pub(b: &[u8]) -> Option<Vec<u8>> { indep_build_id(b) }
